@@ -98,6 +98,8 @@ fn strategy(tier: Tier) -> BoxedStrategy<Case> {
     let cutspec = prop_oneof![
         2 => any::<u16>().prop_map(CutSpec::Abs),
         3 => (any::<u16>(), -2i8..=6).prop_map(|(k, d)| CutSpec::ItemRel(k, d)),
+        // field boundaries of the longer messages (request / piece header, handshake: protocol string, reserved, hash, id)
+        2 => (any::<u16>(), prop::sample::select(vec![8i8, 9, 12, 13, 16, 17, 18, 19, 20, 21, 27, 28, 29, 47, 48, 49, 66, 67, 68, 69])).prop_map(|(k, d)| CutSpec::ItemRel(k, d)),
         2 => any::<u16>().prop_map(|k| CutSpec::ItemRel(k, 0)),
     ];
     (
